@@ -159,6 +159,20 @@ def merge_rules(facts):
         tot = any(txt(s.get("e")).replace(" ", "") == "(_total_weight+=other_sketch.get_total_weight())" for s in st if s.get("k") == "Expr")
         ok = loop_at is not None and "(*it+=*other_it)" in body and "++it" in body and "++other_it" in body and txt(st[loop_at].get("c")).replace(" ", "") == "(it!=_sketch_array.end())" and tot
         out.append(ob("cm.merge", key, fn["pat"], "discharged" if ok else "violated", "every cell += the other sketch's cell; totals added" if ok else "merge loop is %s with total update %s: every cell must receive the other's cell exactly once and the totals must be added" % (body, tot), fn["qname"]))
+        # linearity on every path: no early return past the checks (it would skip the cell sum or the total), and no write to the
+        # cells other than the additive one (copying the other table replaces what was accumulated)
+        rets = []
+        walk(fn["body"], lambda n: rets.append(n) if n.get("k") == "Return" else None)
+        copies = []
+        walk(fn["body"], lambda n: copies.append(n) if n.get("k") == "Call" and n.get("cname") in ("copy", "copy_n", "fill", "assign", "swap") and "_sketch_array" in txt(n) else None)
+        assigns = []
+        walk(fn["body"], lambda n: assigns.append(n) if n.get("k") == "Assign" and n.get("op") == "=" and ("_sketch_array" in txt(n["l"]) or txt(n["l"]).startswith("*it")) else None)
+        key = "count_min_sketch::merge:single-additive-path"
+        if rets or copies or assigns:
+            what = ("an early `return` at %s" % rets[0]["loc"].split("/")[-1]) if rets else ("`%s`" % txt((copies or assigns)[0])[:70])
+            out.append(ob("cm.merge", key, (rets or copies or assigns)[0]["loc"], "violated", "merge contains %s: a path that leaves merge without adding the totals, or that overwrites cells instead of adding to them, breaks linearity (merging into a fresh accumulator must equal one sketch fed both streams; a stale total weight of 0 also keeps is_empty() true)" % what, fn["qname"]))
+        else:
+            out.append(ob("cm.merge", key, fn["pat"], "discharged", "one path after the checks: additive cell loop, then totals; no early return, no overwriting of cells", fn["qname"]))
     return out
 
 
